@@ -686,6 +686,31 @@ func gen(a Args, out *Out) {
 		}
 	}
 
+	// 12. two schedulers alive at once, driven in turn from one goroutine (wheel + wheel,
+	// wheel + heap): each must behave exactly as if it were alone — nothing is shared
+	// between scheduler objects.  Each of the two histories is an ordinary case.
+	{
+		trng := NewRng(a.Seed*40503 + 12)
+		for k := 0; k < 12*scale; k++ {
+			r := trng.Fork()
+			implB := int64(drv.ImplWheel)
+			if k%2 == 1 {
+				implB = drv.ImplHeap
+			}
+			hA := randHist(r, drv.ImplWheel)
+			hB := randHist(r, implB)
+			var turns []int
+			for i := 0; i < r.Range(2, 6); i++ {
+				turns = append(turns, r.PickInt(1, 1, 2, 3, 7))
+			}
+			inA, inB := hA.Sx(), hB.Sx()
+			obsA, obsB := drv.RunInterleaved(inA, inB, turns)
+			out.Case("two-objects", true, inA, obsA)
+			out.Case("two-objects", true, inB, obsB)
+			out.Count("two-objects-pairs")
+		}
+	}
+
 	// 9. the REAL worker goroutine with nobody reading Chan() (see drv.Live): every one-shot
 	// timer is delivered exactly once or cancelled, and a timer received from Chan() is no
 	// longer reported by IsScheduled() / counted by Size() — also while the worker is still
@@ -698,6 +723,41 @@ func gen(a Args, out *Out) {
 	fanout(a, rng.Fork(), out)
 
 	sweeps(a, rng.Fork(), out)
+}
+
+// randHist: a moderate random history (starts, cancels, worker steps in any order, ticks).
+func randHist(r *Rng, impl int64) *drv.Hist {
+	h := drv.NewHist(impl, startPos(r), int64(r.PickI64(0, 9, 4000)))
+	n := r.Range(15, 50)
+	for i := 0; i < n; i++ {
+		switch r.Intn(14) {
+		case 0, 1, 2:
+			h.Start(int64(r.Range(0, 60)))
+		case 3:
+			h.Every(int64(r.Range(1, 30)))
+		case 4:
+			h.Cancel(int64(r.Range(0, int(h.NextID)+1)))
+		case 5, 6, 7:
+			h.HandleAdd()
+		case 8:
+			h.HandleDel()
+		case 9, 10:
+			h.Adv(int64(r.Range(0, 25)))
+		case 11:
+			h.Size()
+		case 12:
+			h.IsSched(int64(r.Range(0, int(h.NextID)+1)))
+		default:
+			h.Probe()
+		}
+	}
+	for h.QueuedAdd > 0 {
+		h.HandleAdd()
+	}
+	h.Adv(int64(r.Range(1, 70)))
+	h.Size()
+	h.Probe()
+	return h
 }
 
 // fanout evaluates in Go: 600..1200 timers due on one tick, with and without a backlog of
